@@ -165,21 +165,24 @@ def check(prog, run):
             if any(p.count("on_field_end") != 1 for p in paths):
                 run.report(r, "%s:%s.%s:hooks" % (mod, q, cn), c.where(), "closure %s fires on_field_end %s times" % (cn, sorted({p.count('on_field_end') for p in paths})))
 
-        def ev(n, closures=closures):
+        from ..canon import Canon
+        canon = Canon(f.node)
+
+        def ev(n, closures=closures, canon=canon):
             h = hook_name(n)
             if h in ("on_field_start", "on_field_end"):
                 return h
             if isinstance(n, ast.Call):
+                ft = canon.func_text(n)
                 if isinstance(n.func, ast.Name) and n.func.id in closures:
                     return "on_field_end"
-                if isinstance(n.func, ast.Name) and n.func.id == "resolver":
+                if ft.startswith("self.field_resolver("):
                     return "resolver"
-                if isinstance(n.func, ast.Attribute) and n.func.attr == "argument_values":
+                if ft.endswith(".argument_values"):
                     return "args"
-                if isinstance(n.func, ast.Attribute) and n.func.attr == "map_value" and len(n.args) >= 2 and isinstance(n.args[1], ast.Name) \
-                        and n.args[1].id in closures:
+                if ft.endswith(".map_value") and len(n.args) >= 2 and isinstance(n.args[1], ast.Name) and n.args[1].id in closures:
                     return "on_field_end"
-                if isinstance(n.func, ast.Attribute) and n.func.attr == "complete_value":
+                if ft.endswith(".complete_value"):
                     return "complete_value"
             return None
 
@@ -337,7 +340,10 @@ def check(prog, run):
             break
     for mod, q in ((EXE, "Executor.resolve_field"), (BEXE, "BlockingExecutor.resolve_field")):
         f = prog.get_func(mod, q)
-        src = [n for n in own_nodes(f.node) if isinstance(n, ast.Assign) and ast.unparse(n.targets[0]) == "resolver"]
-        r.instance("%s resolver binding `%s`" % (q, norm_stmt(src[0]) if src else None))
-        if len(src) != 1 or not (isinstance(src[0].value, ast.Call) and ast.unparse(src[0].value.func) == "self.field_resolver"):
+        from ..canon import Canon
+        canon = Canon(f.node)
+        inv = [n for fn in [f] + list(f.nested.values()) for n in own_nodes(fn.node)
+               if isinstance(n, ast.Call) and any(k.arg is None and canon.text(k.value).startswith("self.argument_values(") for k in n.keywords)]
+        r.instance("%s invokes `%s` with the coerced arguments" % (q, canon.func_text(inv[0]) if inv else None))
+        if len(inv) != 1 or not canon.func_text(inv[0]).startswith("self.field_resolver(parent_type, field_definition)"):
             run.report(r, "%s:%s:resolver-source" % (mod, q), f.where(), "the resolver invoked is not the one returned by field_resolver (middlewares bypassed)")
